@@ -55,6 +55,11 @@ ResMatches(code, res) == code = -1 \/ (code = 0 /\ res = "ok") \/ (code = 1 /\ r
 LoadMatches(e, m, r) == /\ e = -1 \/ (e = 0 /\ r.ok) \/ (e = 1 /\ ~r.ok)
                         /\ m = r.m
 
+\* a file whose swamp name is incomplete (hd = 1) holds no record; once bytes follow the header the reader may take
+\* them for the name and find no complete block behind it: error or empty map, by the bytes
+LoadObserved(e, m, d) == \/ LoadMatches(e, m, Load(d))
+                         \/ d.ex /\ d.hd = 1 /\ e \in {0, -1} /\ m = Empty
+
 EntryOf(e) == [op |-> e.op, k |-> e.k, v |-> e.v, kc |-> e.kc, rep |-> e.rep, ak |-> e.ak, av |-> e.av]
 
 \* the API call of the current line
@@ -93,7 +98,7 @@ TrReturn ==
 
 TrLoad ==
   /\ HaveEv /\ Ev.ev = "load" /\ ~inflight /\ Quiescent /\ run = -1
-  /\ LoadMatches(Ev.err, Ev.m, Load(disk))
+  /\ LoadObserved(Ev.err, Ev.m, disk)
   /\ Advance
   /\ UNCHANGED <<vars, hid, run, inflight>>
 
@@ -116,7 +121,7 @@ TrCrash ==
   /\ br # <<>> /\ br[2] = 0 /\ run = 0
   /\ pend # <<>> /\ Head(pend) = Cut.op
   /\ Crash(Cut.tear)
-  /\ LoadMatches(Cut.lerr, Cut.lm, Load(disk'))
+  /\ LoadObserved(Cut.lerr, Cut.lm, disk')
   /\ br' = <<br[1], 1>> /\ run' = -1
   /\ UNCHANGED <<l, hid, inflight>>
 
